@@ -290,6 +290,18 @@ func Keys(argv []string) []string {
 	return argv[1:2]
 }
 
+// UserKeyless: commands without key that the observers send as user traffic (the client itself also
+// sends ECHO "" and PING): PUBLISH, SUBSCRIBE and ECHO of a payload starting with "u:".
+func UserKeyless(argv []string) bool {
+	switch strings.ToUpper(argv[0]) {
+	case "PUBLISH", "SUBSCRIBE":
+		return len(argv) > 1
+	case "ECHO":
+		return len(argv) > 1 && strings.HasPrefix(argv[1], "u:")
+	}
+	return false
+}
+
 func IsRead(argv []string) bool { return readCmd[strings.ToUpper(argv[0])] }
 
 // IsClusterErr: the node refused to run the command.
@@ -432,7 +444,7 @@ func (cl *Cluster) install(n *Node) {
 		var act fr.Action
 		key := strings.Join(argv, " ")
 		var ar *Arrival
-		if len(Keys(argv)) > 0 || name == "MULTI" || name == "EXEC" || name == "DISCARD" {
+		if len(Keys(argv)) > 0 || name == "MULTI" || name == "EXEC" || name == "DISCARD" || UserKeyless(argv) {
 			s.Lock()
 			role := s.Role
 			s.Unlock()
